@@ -372,7 +372,7 @@ pub fn generate_into(ctx: &mut Ctx) {
     ctx.case("pubx delta -");
     ctx.case("pubx lr -");
     for i in 0..8 { ctx.case(&format!("pubx er {}", i)); }
-    for len in (0..=10usize).chain([47, 48, 49, 57, 255, 256, 1023]) {
+    for len in (0..=10usize).chain([47, 48, 49, 57, 255, 256, 1023, 8193, 65537, 131073]) {
         ctx.case(&format!("pubx delta P,{},{},{}", hx(b"s"), hx(b"rsync://h/m/o.roa"), hx(&rng.bytes(len))));
     }
     for _ in 0..n {
